@@ -12,7 +12,7 @@ EXTENDS EioQueueFine, Json, IOUtils, TLCExt
 
 Tr == JsonDeserialize(IOEnv.TRACE_FILE)
 VARIABLES tid, l
-tvars == <<q, unf, closing, closed, intable, ev, deliv, sent, kind, pc, pk, it, resp, tid, l>>
+tvars == <<q, unf, closing, closed, intable, ev, deliv, sent, kind, pc, pk, it, resp, nx, alloc, putord, tid, l>>
 
 Evs == Tr[tid].log
 TraceInit == Init /\ tid \in 1..Len(Tr) /\ l = 1
@@ -23,7 +23,8 @@ Consume ==
            p == e.t
        IN /\ CASE e.op = "start"     -> Start(p, e.item)
                [] e.op = "get_enter" -> PollEnter(p) /\ pc'[p] = "wait"
-               [] e.op = "put"       -> Step(p) /\ q' = Append(q, e.item)
+               [] e.op = "put_enter" -> Step(p) /\ pc'[p] = "put" /\ it'[p] = e.item /\ q' = q
+               [] e.op = "put"       -> DoPut(p) /\ it[p] = e.item
                [] e.op = "get"       -> Step(p) /\ q # <<>> /\ Head(q) = e.item /\ q' = Tail(q)
                [] e.op = "task_done" -> Step(p) /\ unf' = unf - 1 /\ q' = q
                [] e.op = "join_ret"  -> DiscJoin(p)
